@@ -460,6 +460,9 @@ def r02_9(ctx):
     from .c09 import folded_conditional_type
 
     folded_conditional_type(ctx)
+    from .c03 import r03_7
+
+    r03_7(ctx)  # an operand's declared type is its own object: `unsigned int x` must not turn every later `int` unsigned
 
 
 @rule("R02.10", "C02", "operators group as in C: precedence and associativity of the expression tower (a chain of ?: nests to the right, binary operators to the left)", min_instances=25)
